@@ -872,7 +872,9 @@ def analyse(a, arch, only=None, file_level=None):
             if pc in gc_pcs:
                 pass
             gc_pcs[pc] = gi
-            if pc > size:
+            # a return address equal to the end of the range is the first byte of the NEXT function: the runtime's
+            # interval map [start, end) would attribute the frame to the wrong function
+            if pc >= size:
                 P.append(Problem("gcpoint-outside-function", KIND_NAMES[e.kind], sym, "gcpoint at %d, function has %d bytes" % (pc, size)))
             slots = offs[os_:os_ + ol] if os_ + ol <= len(offs) else []
             pairs = inter[is_:is_ + il] if is_ + il <= len(inter) else []
@@ -1012,7 +1014,7 @@ def analyse(a, arch, only=None, file_level=None):
                 P.append(Problem("location-order", KIND_NAMES[e.kind], sym, "location pc offsets not strictly increasing: %d after %d" % (pc, prevpc),
                                  {"pc": pc, "prev": prevpc}))
             prevpc = pc
-            if pc > size or pc == 0:
+            if pc >= size or pc == 0:
                 P.append(Problem("location-outside-function", KIND_NAMES[e.kind], sym, "location at %d, function has %d bytes" % (pc, size)))
             elif pc not in boundaries:
                 P.append(Problem("location-inside-instruction", KIND_NAMES[e.kind], sym, "location at %d is not an instruction boundary" % pc))
